@@ -243,6 +243,8 @@ impl Property for C12 {
                 }
             })
             .collect();
+        let mut exprs = exprs;
+        add_empty_member(t, &mut exprs);
         let mut paths = pat_pool(t, &exprs, 1);
         paths.push("a".into());
         paths.sort();
